@@ -85,6 +85,7 @@ package websocket
 
 //@ func ext:unicode/utf8.Valid
 //@   trusted
+//@   ensures len(p) == 0 ==> result
 //@   modifies nothing
 
 // A frame whose storage holds at least the header and the payload it declares (it may be longer:
@@ -190,6 +191,11 @@ package websocket
 //@           int((*s.pendingFrames[n0])[1] & 127) == 2 && int((*s.pendingFrames[n0])[2])*256 + int((*s.pendingFrames[n0])[3]) == 1002
 //@   ensures [close-echo] isClose && plen >= 2 && utf8ok && codeOK ==>
 //@           int((*s.pendingFrames[n0])[1] & 127) == plen && (forall k :: 0 <= k && k < plen ==> (*s.pendingFrames[n0])[2 + k] == old(pl[k]))
+//@   // a Close carrying only a status code (empty reason, trivially valid UTF-8): echoed if the code is valid, 1002 otherwise
+//@   ensures [close-code-only] isClose && plen == 2 && codeOK ==>
+//@           int((*s.pendingFrames[n0])[1] & 127) == 2 && (*s.pendingFrames[n0])[2] == old(pl[0]) && (*s.pendingFrames[n0])[3] == old(pl[1])
+//@   ensures [close-code-only-bad] isClose && plen == 2 && !codeOK ==>
+//@           int((*s.pendingFrames[n0])[1] & 127) == 2 && int((*s.pendingFrames[n0])[2])*256 + int((*s.pendingFrames[n0])[3]) == 1002
 //@   // Close answering ours: the handshake is complete, nothing more is sent
 //@   ensures [close-ack] fin && !big && op == 8 && old(s.state) == StateClosedByUs ==> err == nil && s.state == StateCloseAcked && len(s.pendingFrames) == n0
 //@   ensures [order] forall j :: 0 <= j && j < n0 ==> s.pendingFrames[j] == old(s.pendingFrames[j])
